@@ -16,10 +16,11 @@ import (
 func init() {
 	register(&Prop{
 		ID: "C03", Level: "exploration", Quick: 80000, Thorough: 5000000,
-		Rule: "the first 64 trials are the exhaustive symbol table: every (reference symbol, query symbol) pair of the 17-symbol alphabet x letter case of either file x gap mode, embedded at varying columns of a 17..40-column alignment; the rest are generated alignments (width 1..40, 1..8 or 60..150 records, all symbol profiles, any FASTA layout) x --hard-gaps, each run under 3 seeded schedules with NumCPU in {1..16}; non-trivial = at least 2 queries and a record reached the writer out of input order in some run, or the trial is part of the symbol table; distinct = distinct (input, options)",
-		Gen:   genC03,
-		Check: checkC03,
-		Required: []string{"out_of_order_arrival", "sender_blocked_on_full_buffer"},
+		Rule:          "the first 64 trials are the exhaustive symbol table: every (reference symbol, query symbol) pair of the 17-symbol alphabet x letter case of either file x gap mode, embedded at varying columns of a 17..40-column alignment; the rest are generated alignments (width 1..40, 1..8 or 60..150 records, all symbol profiles, any FASTA layout) x --hard-gaps, each run under 3 seeded schedules with NumCPU in {1..16}; non-trivial = at least 2 queries and a record reached the writer out of input order in some run, or the trial is part of the symbol table; distinct = distinct (input, options)",
+		ShrinkColumns: true,
+		Gen:           genC03,
+		Check:         checkC03,
+		Required:      []string{"out_of_order_arrival", "sender_blocked_on_full_buffer"},
 	})
 	exhaustiveNote["C03/quick"] = "all 17x17 symbol pairs x 2 letter cases per file x 2 gap modes are enumerated (trials 0..63)"
 	exhaustiveNote["C03/thorough"] = exhaustiveNote["C03/quick"]
@@ -89,13 +90,19 @@ func genC03(r *Rand, tier string, ord int) *Trial {
 	}
 	t.Case = Case{Cmd: "snps", Files: map[string]string{"ref": ">ref\n" + ref + "\n", "query": q.FASTA(lay)}}
 	t.Case.Opts.HardGaps = hard
-	t.Params["model"] = snpsModel(ref, q, hard)
 	t.Runs = genRunCfgs(r, 3)
 	return t
 }
 
 func checkC03(t *Trial, ctx *Ctx) *Failure {
-	want := t.Params["model"]
+	rr, _ := parseFasta(t.Case.Files["ref"])
+	var q Aln
+	qq, _ := parseFasta(t.Case.Files["query"])
+	for _, rc := range qq {
+		q.Names = append(q.Names, strings.Fields(rc.head[1:])[0])
+		q.Seqs = append(q.Seqs, strings.Join(rc.seq, ""))
+	}
+	want := snpsModel(strings.Join(rr[0].seq, ""), q, t.Case.Opts.HardGaps)
 	ooo := false
 	for i := range t.Runs {
 		res := ctx.Run(t, i, &t.Case)
